@@ -287,8 +287,12 @@ def show_term(t):
 def inline_same_module_private(fi: FunctionInfo):
     """Inline private module-level helpers (and private methods of the same class) of the entry's module."""
     def pred(f: FunctionInfo) -> bool:
-        if not f.name.startswith("_") or f.name.startswith("__"):
+        if f.name.startswith("__"):
             return False
+        if not f.name.startswith("_"):
+            # a public function of the same module that the documented API does not have (a helper made public)
+            from .ir import api_signature
+            return f.module == fi.module and f.cls is None and api_signature(f) is None and f is not fi
         return f.module == fi.module and (f.cls is None or f.cls == fi.cls)
     return pred
 
